@@ -222,11 +222,22 @@ def _situation(att, p, p2, bad, env):
         import exo.API_cursors as C
         par = c.parent()
         pn = par._impl._node if not isinstance(par, C.InvalidCursor) else None
-        if isinstance(pn, LoopIR.If):
-            blk0 = pn.body if n in pn.body else pn.orelse
-            k0 = blk0.index(n) + (1 if a.get("where") == "after" else 0)
-            if cfg_reads([pn.cond]) & cfg_writes(blk0[:k0]):
-                return "if:first-part-writes-config-read-by-guard"
+        # the guard of an `if` that is duplicated (the parent itself, or an ancestor crossed by n_lifts > 1) reads a
+        # configuration field that the first part writes
+        blk0 = None
+        if pn is not None and hasattr(pn, "body"):
+            blk0 = pn.body if any(x is n for x in pn.body) else getattr(pn, "orelse", [])
+        if blk0 and any(x is n for x in blk0):
+            k0 = next(i for i, x in enumerate(blk0) if x is n) + (1 if a.get("where") == "after" else 0)
+            wr = cfg_writes(blk0[:k0])
+            cur = par
+            for _ in range(a.get("n_lifts", 1)):
+                if isinstance(cur, C.InvalidCursor):
+                    break
+                cn = cur._impl._node
+                if isinstance(cn, LoopIR.If) and cfg_reads([cn.cond]) & wr:
+                    return "if:first-part-writes-config-read-by-guard"
+                cur = cur.parent()
         if isinstance(pn, LoopIR.If) and "scope" in bad:
             blk = pn.body if n in pn.body else pn.orelse
             k = blk.index(n) + (1 if a.get("where") == "after" else 0)
@@ -250,14 +261,19 @@ def _situation(att, p, p2, bad, env):
         if "assertFail" in bad:
             # path conditions of enclosing ifs become assertions of the sub-procedure although a statement between the
             # `if` and the block changed a configuration field the condition reads
-            cur, child = c.parent(), c
+            cur, child, loop_between = c.parent(), c, False
             while isinstance(cur, (C.IfCursor, C.ForCursor)):
                 cn = cur._impl._node
                 if isinstance(cur, C.IfCursor):
                     sib = cn.body if any(x is child._impl._node for x in cn.body) else cn.orelse
                     idx = next(i for i, x in enumerate(sib) if x is child._impl._node)
-                    if cfg_reads([cn.cond]) & cfg_writes(sib[:idx]):
+                    # writes that can precede the block: earlier siblings; with a loop in between also the block
+                    # itself and everything else in that loop (next iteration)
+                    before = sib[:idx] + (sib[idx:] if loop_between else [])
+                    if cfg_reads([cn.cond]) & cfg_writes(before):
                         return "path-condition-invalidated-by-config-write-before-block"
+                else:
+                    loop_between = True
                 child, cur = cur, cur.parent()
         if "assertFail" in bad and any(isinstance(x, LoopIR.If) and x.orelse for x in blk):
             return "path-condition-taken-from-sibling-if-orelse"
